@@ -93,6 +93,14 @@ def corrupt(path, variant, rng_n):
         for d in doc:
             d["times"] = ["yesterday", "tomorrow"]        # unparsable times
         new = json.dumps(doc).encode() if doc else b"\xff\xfe"
+    elif variant == 5:
+        doc = json.loads(raw)
+        if len(doc) >= 2:
+            doc[-1].pop("path", None)                     # only the LAST entry is malformed
+            doc[-1]["times"] = [None]
+            new = json.dumps(doc).encode()
+        else:
+            new = raw[:len(raw) // 2]
     else:
         new = b""                                         # empty file
     with open(path, "wb") as f:
@@ -102,7 +110,7 @@ def corrupt(path, variant, rng_n):
 def replay(col, item):
     import typhon.files.fileset as FM
     from typhon.files import FileSet
-    case, kind, seq = item
+    case, kind, seq, variant = item
     hist = case["hist"]
     root = tempfile.mkdtemp(prefix="verif-c15-")
     cache = os.path.join(root, "cache.json")
@@ -132,7 +140,11 @@ def replay(col, item):
                 last = steps[-1]
                 fingerprint_extra = last
                 if last == "save_rename":
-                    fs.save_cache(cache)
+                    try:
+                        fs.save_cache(cache)
+                    except Exception as ex:
+                        col.violation("save-raises-" + type(ex).__name__, dict(rep, observed=repr(ex)[:300], at_step=i))
+                        return
                 else:
                     def crashing_open(path, mode="r", *aa, **kk):
                         real = open(path, mode, *aa, **kk)
@@ -156,6 +168,9 @@ def replay(col, item):
                         died = False
                     except Crash:
                         died = True
+                    except Exception as ex:
+                        col.violation("save-raises-" + type(ex).__name__, dict(rep, observed=repr(ex)[:300], at_step=i))
+                        return
                     finally:
                         FM.shutil = saved["shutil"]
                         FM.__dict__.pop("open", None)
@@ -166,9 +181,9 @@ def replay(col, item):
                 fs = None
                 FM.atexit = NoAtexit()
             elif a == "corrupt":
-                corrupt(cache, seq % 6, seq)
+                corrupt(cache, variant, seq)
                 corrupted = True
-                rep["concrete"]["corruption_variant"] = seq % 6
+                rep["concrete"]["corruption_variant"] = variant
             elif a == "restart":
                 with warnings.catch_warnings(record=True) as w:
                     warnings.simplefilter("always")
@@ -287,8 +302,12 @@ def run(ctx):
     ctx.exhaustive = True
     if quick:
         cases = cases[::2]
-    items = [(c, ["temporal", "nontemporal"][n % 2] if quick else k, n) for n, c in enumerate(cases)
-             for k in (("x",) if quick else ("temporal", "nontemporal"))]
+    items = []
+    for n, c in enumerate(cases):
+        has_corrupt = any(h[0] == "corrupt" for h in c["hist"])
+        for k in ((["temporal", "nontemporal"][n % 2],) if quick else ("temporal", "nontemporal")):
+            for v in (range(7) if has_corrupt else (0,)):
+                items.append((c, k, n, v))
     pmap(ctx, replay, items)
     pmap(ctx, truncation_sweep, ["temporal", "nontemporal"], procs=1)
     if ctx.notes.get("crash_point_not_reached"):
